@@ -49,6 +49,12 @@ def plan(tier, seed):
                 continue
             shards.append(dict(seed=seed, layout=lay, reg=reg, depth=depth,
                                tier=tier))
+    # frames of a group without a program that are shorter than the
+    # Ethernet minimum (not padded by their sender)
+    for lay in ("w", "r", "wf"):
+        shards.append(dict(seed=seed, layout=lay, reg="unregistered",
+                           depth=7 if tier == "quick" else 10, tier=tier,
+                           unpadded=True))
     # identifiers beyond the program table whose low 16 bits alias a slot
     # that is in use
     for idx in (0x10005, 0x1f0005, 0x7fff0005, 0x10000, 65536 * 7 + 63):
@@ -81,6 +87,12 @@ def run_world(params, res, monitor):
                                index=params.get("index") or (
                                    70 if reg == "bigindex" else 5),
                                decoy=params.get("decoy"))
+            if params.get("unpadded"):
+                w.unpadded = True
+                res.count("worlds_with_unpadded_frames")
+                res.info["unpadded_frame_length"] = len(
+                    w.frame((0, tuple(False for _ in w.writers),
+                             tuple("0" for _ in w.writers))))
         except Exception as ex:
             import traceback
             res.case(["world", params["layout"], reg, params.get("decoy")])
